@@ -524,6 +524,8 @@ MACRO_CORPUS = [
     ("object-to-function", "#define PLUS ADD\n#define ADD(a, b) a + b\nint x = PLUS(1, 2);\n"),
     ("undef", "#define A 1\n#undef A\nint x = A;\n"),
     ("stringify-expanded", "#define STR(x) #x\n#define XSTR(x) STR(x)\n#define V 42\nconst char *a = STR(V), *b = XSTR(V);\n"),
+    ("empty-expansion-arg", "#define F \n#define H(a) a\nint r = H(F);\n"),            # fixed 9088520
+    ("empty-expansion-arg2", "#define E\n#define F(a) [a]\nint x = F(E) F(E E) E;\n"),
     # the three open findings (minimal inputs)
     ("open-hideset", "#define foo foo + 1\n#define F(b) b\nint r = F(foo);\n"),
     ("open-stringify-spacing", "#define STR(x) #x\nconst char *s = STR(a+b);\n"),
